@@ -165,11 +165,18 @@ def oracle_failures(line):
 
 
 def model_on_variants(tag, seg_table_pairs, variant_terms):
-    """seg_table_pairs: list of (seg bytes, HashTable); variant_terms: list of (index, gallina term using
-    `seg<i>` / `tbl<i>`) -> values.  All definitions go to the preamble once per shard."""
+    """seg_table_pairs: list of (seg bytes, HashTable); variant_terms: gallina terms using `seg<i>` / `tbl<i>`
+    -> values.  Definitions go to the preamble (once per shard); a table shared by several segments is
+    defined once."""
     pre = PRE
+    names = {}
     for i, (seg, tbl) in enumerate(seg_table_pairs):
-        pre += "Definition tbl%d : list (N * list (bytes * N)) := Eval vm_compute in %s.\nDefinition seg%d : bytes := Eval vm_compute in %s.\n" % (i, tbl.term(), i, hexbytes(seg))
+        if id(tbl) not in names:
+            names[id(tbl)] = "tbl%d" % i
+            pre += "Definition tbl%d : list (N * list (bytes * N)) := Eval vm_compute in %s.\n" % (i, tbl.term())
+        else:
+            pre += "Definition tbl%d := %s.\n" % (i, names[id(tbl)])
+        pre += "Definition seg%d : bytes := Eval vm_compute in %s.\n" % (i, hexbytes(seg))
     return vf.coq_eval(tag, pre, variant_terms, shards=min(vf.NCPU, max(1, len(variant_terms))), timeout=1700)
 
 
